@@ -88,6 +88,10 @@ class Run:
             is_lemma = fname.startswith("<lemma>") or (em is not None and not any(fname == x[0] for x in em.fn_lines))
             if not is_lemma and not self.relevant(unit, fname):
                 continue
+            # composition harnesses of a unit's postlude are named verif_cNN_*: they belong to property CNN only
+            mh = re.match(r"(?:<lemma>::)?verif_c(\d\d)_", fname)
+            if mh and self.prop != "C" + mh.group(1):
+                continue
             # hand-written executable functions of the prelude (rangeint model, opaque views) are not
             # obligations about /repo: only extracted functions and proof lemmas are counted
             if is_lemma and fr.ok and fr.mode not in ("proof",):
@@ -152,7 +156,16 @@ class Run:
     # ------------------------------------------------------------------ canaries
     def run_canaries(self, cfg):
         from . import canary
-        self.canaries = canary.run(self.prop, cfg, self.repo)
+        self.canaries = canary.run(self.prop, cfg, self.repo, self)
+        for n, killed, detail in self.canaries:
+            if killed is None and n.endswith("[tail]"):
+                # the tail probe could not be placed without breaking a unit rewrite (e.g. a rewritten struct literal at the tail):
+                # recorded in the evidence, not a verdict
+                continue
+            if killed is None:
+                self.undecided.append((n, "vacuity-probe: " + detail))
+            elif not killed:
+                self.undecided.append((n, "vacuous-contract: " + detail))
 
     # ------------------------------------------------------------------ verdict
     def finish(self, write_evidence=True):
@@ -163,22 +176,24 @@ class Run:
         violations = []
         known_hits = []
         for o in failed:
-            hit = None
-            for k in known.get("findings", []):
-                if self.prop not in k.get("properties", [k.get("property")]) and k.get("property") != "*":
-                    continue
-                if k.get("obligation") != o.name:
-                    continue
-                pat = k.get("match")
-                if pat and not re.search(pat, o.detail + " " + o.kind):
-                    continue
-                # every failing diagnostic of this obligation must be covered by the listed finding
-                if k.get("only_lines"):
-                    pass
-                hit = k
-                break
-            if hit is not None and self._only_known(o, hit):
-                known_hits.append((o, hit))
+            # all listed findings for this property and obligation; the obligation is suppressed only if EVERY failing
+            # diagnostic of it matches the pattern of one of them (a different failure of the same function is a violation)
+            ks = [k for k in known.get("findings", [])
+                  if (self.prop in k.get("properties", [k.get("property")]) or k.get("property") == "*") and k.get("obligation") == o.name]
+            blocks = [b for b in o.detail.split("\n\n") if b.strip().startswith("error")] or [o.detail + " " + o.kind]
+            used = []
+            ok = bool(ks)
+            for b in blocks:
+                m = [k for k in ks if not k.get("match") or re.search(k["match"], b)]
+                if not m:
+                    ok = False
+                    break
+                for k in m:
+                    if k not in used:
+                        used.append(k)
+            if ok:
+                for k in used:
+                    known_hits.append((o, k))
             else:
                 violations.append(o)
         # witness search for violations
